@@ -79,7 +79,7 @@ func main() {
 		maxSteps  = flag.Int("max-steps", 5_000_000, "SSA step bound per path")
 		maxPaths  = flag.Int("max-paths", 200000, "path bound")
 		allocCap  = flag.Int64("alloc-cap", 1<<22, "engine cap on one allocation (bytes)")
-		solver    = flag.String("solver", "z3", "z3 | z3-new | cvc5")
+		solver    = flag.String("solver", "z3-new", "z3-new (5.1.0) | z3 (4.8.12) | cvc5")
 		timeoutMs = flag.Int("timeout-ms", 2000, "per-query timeout of the incremental solver before the one-shot fallback (60 s)")
 		intMode   = flag.Bool("int", false, "integer arithmetic mode")
 		samples   = flag.Int("samples", 4, "number of path samples to keep")
